@@ -295,7 +295,12 @@ class ProgGen(object):
         if c == "collect":
             x = self.fresh("c")
             lists = [(v, vt) for v, (vt, _) in all_vars.items() if isinstance(vt, list) and vt[0] == "list"]
-            if lists and r.random() < 0.6:
+            gfs = [i for i, f in enumerate(self.funs) if isinstance(f["rt"], list) and f["rt"][0] == "gen" and self.here(f)]
+            srck = None
+            if gfs and r.random() < 0.75:               # a generator as the source: [e for x in g(..) | c]
+                fi = r.choice(gfs)
+                src, et, srck = self.call(fi, scope, d), self.funs[fi]["rt"][1], "gen"
+            elif lists and r.random() < 0.6:
                 v, vt = r.choice(lists)
                 src, et = var(v), vt[1]
             elif r.random() < 0.5:
@@ -311,7 +316,10 @@ class ProgGen(object):
             body = self.expr(t[1], sc, d - 1)
             if et == t[1] and r.random() < 0.7:         # make the element count
                 body = prim(("si" if et == SI else "bi") + "." + r.choice(["add", "mul", "sub"]), var(x), body)
-            return {"e": "collect", "t": t, "x": x, "src": src, "cond": cond, "body": body}
+            out = {"e": "collect", "t": t, "x": x, "src": src, "cond": cond, "body": body}
+            if srck:
+                out["srck"] = srck
+            return out
         if c == "var":
             return var(r.choice(vs))
         if c == "lit":
@@ -1446,6 +1454,8 @@ def generate(seed, n, features=None, emph=(), extras=True):
             g.feat |= {"tup", "coll", "filt", "adt", "kwd", "strop", "where", "pfor", "bits", "const"}
             if "try" in g.feat and i % 2:
                 g.enable_payload()
+            if i % 6 == 5:          # collect forms over generators need generator functions and lists to exist
+                g.feat |= {"gen", "list", "fun"}
         out.append(g.program("g%d_%d" % (seed, i)))
     return out
 
@@ -1527,3 +1537,24 @@ def add_extremes(prog, seed, huge=True):
                                                           lit(BI, r.choice([2**31, 2**32 + 1, 2**63, -(2**63) - 1, 2**64])),
                                                           sp, {"e": "str", "s": text(r.randint(0, 30))}, nl]}})
     return p
+
+
+def generator_collect_family(seed, n, prefix="gc"):
+    """n programs that each hold at least one collect form whose source is a generator ([e for x in g(..) | c]); such forms
+    are rare in the plain family (a generator function must already exist where a list is wanted), so they are drawn by
+    rejection.  Every third program also has exceptions (a throw in the generator or in the element expression unwinds
+    through the gathering frame)."""
+    import json as _json
+    out = []
+    i = 0
+    while len(out) < n and i < 60 * n + 200:
+        g = ProgGen(seed * 100003 + i, emph=("call",) if i % 2 else ())
+        g.feat |= {"fun", "gen", "coll", "list", "for", "filt"}
+        if i % 3 == 0:
+            g.feat |= {"try"}
+            g.exns = g.exns or ["Ex0", "Ex1"]
+        p = g.program("%s%d_%d" % (prefix, seed, i))
+        i += 1
+        if '"srck"' in _json.dumps(p):
+            out.append(p)
+    return out
